@@ -26,7 +26,11 @@ KINDS = {
     "quic_split": ("quic", {"suite": 0x1301, "coalesce": "ini+hs", "ch_split": {"cuts": (100,), "order": (1, 0), "packets": True},
                             "script": [("c", [(0, 25)]), ("s", [(0, 35)])]}),
 }
-RELATIONS = ["different_hosts", "same_hosts_diff_cport", "same_client_two_servers", "same_server_443_44330", "v4_v6", "crossed_hosts"]
+RELATIONS = ["different_hosts", "same_hosts_diff_cport", "same_client_two_servers", "same_server_443_44330", "v4_v6", "crossed_hosts",
+             "resumed_session", "port_in_two_roles", "tcp_to_quic_port"]
+# resumed_session: the second connection resumes the first (same master secret, abbreviated handshake, fresh randoms);
+# port_in_two_roles: the first connection is QUIC to a port outside the configured list and that number is the second
+# connection's client port; tcp_to_quic_port: the second is TCP to that (unconfigured) port and must stay unexported
 CID_RELATIONS = ["distinct", "both_clients_zero", "server_cid_prefix", "client_cid_prefix", "both_zero_zero", "short_id_vs_zero_length"]
 
 
@@ -54,6 +58,8 @@ def describe(tier):
 def make_flows(ka, kb, rel, cidrel, seed):
     """two flows with the requested endpoint / CID relation"""
     specs = []
+    if rel in ("port_in_two_roles", "tcp_to_quic_port") and KINDS[ka][0] != "quic":
+        ka, kb = kb, ka
     for idx, k in enumerate((ka, kb)):
         kind, scn = KINDS[k]
         scn = dict(scn)
@@ -69,6 +75,16 @@ def make_flows(ka, kb, rel, cidrel, seed):
         if rel == "crossed_hosts" and idx == 1:
             # the two hosts talk to each other in both roles with the same port numbers: A:p -> B:443 and B:p -> A:443
             e.update(client_ip="192.0.12.80", server_ip="10.11.0.2", client_port=40000 + 17 * 10 + 1)
+        if rel == "resumed_session" and idx == 1:
+            scn["master"] = specs[0].conn.master
+            scn["abbreviated"] = True
+            e.update(client_ip="10.11.0.2", server_ip="192.0.12.80")
+        if rel in ("port_in_two_roles", "tcp_to_quic_port") and idx == 0:
+            e.update(server_port=4433)
+        if rel == "port_in_two_roles" and idx == 1:
+            e.update(client_port=4433)
+        if rel == "tcp_to_quic_port" and idx == 1:
+            e.update(server_port=4433)
         if kind == "quic" and "ch_split" in scn and idx == 1:
             scn["offered"] = [scn["suite"], 0x1302, 0x1303, 0x1304]     # ClientHellos of different lengths, same split offset
         if kind == "quic" and cidrel != "distinct":
@@ -125,9 +141,15 @@ def cases(tier, seed):
             for rel in RELATIONS:
                 if "quic_split" in (ka, kb) and rel not in ("different_hosts", "same_hosts_diff_cport"):
                     continue
-                if ("ssl3_rc4" in (ka, kb) or "quic_bigpn" in (ka, kb)) and rel != "different_hosts":
+                if ("ssl3_rc4" in (ka, kb) or "quic_bigpn" in (ka, kb)) and rel not in ("different_hosts", "resumed_session"):
                     continue
                 if rel == "crossed_hosts" and (ka != kb or ka in ("tls13", "quic_chacha", "quic_split")):
+                    continue
+                if rel == "resumed_session" and (ka != kb or ka not in ("tls12", "tls10", "ssl3_rc4")):
+                    continue
+                if rel == "port_in_two_roles" and KINDS[ka][0] != "quic" and KINDS[kb][0] != "quic":
+                    continue
+                if rel == "tcp_to_quic_port" and not (KINDS[ka][0] != KINDS[kb][0]):
                     continue
                 cidrels = CID_RELATIONS if (both_quic and "quic_split" not in (ka, kb) and "quic_bigpn" not in (ka, kb) and rel in ("different_hosts", "same_hosts_diff_cport")) else ["distinct"]
                 for cr in cidrels:
@@ -232,6 +254,12 @@ def run_case(case):
             n += 1
             if an_s is None:
                 ok = False
+                continue
+            if case.get("rel") == "tcp_to_quic_port" and f.kind == "tls":
+                if obs_s[0] or obs[fi]:
+                    fails.append({"kind": "unselected_port_exported", "sig": dict(setname, flow=fi),
+                                  "detail": f"TCP flow to a port that was not selected: {len(obs_s[0])} packets alone, {len(obs[fi])} merged"})
+                    ok = False
                 continue
             if not obs_s[0]:
                 fails.append({"kind": "solo_exports_nothing", "sig": dict(setname, flow=fi), "detail": "vacuous: the connection alone exports nothing"})
